@@ -142,7 +142,7 @@ func check(c Case, o *stats.Obs) error {
 	// Normalise the script against the stream: the steps' data must add up to the stream.
 	total := 0
 	for _, s := range c.Steps {
-		if s.Data < 0 || s.Faults < 0 || s.Faults > 2 || s.Idle < 0 || s.Idle > 4 {
+		if s.Data < 0 || s.Faults < 0 || s.Faults > 2 || s.Idle < 0 || s.Idle > 1000 {
 			o.Skip = true
 			return nil
 		}
@@ -267,8 +267,12 @@ collect:
 		fmt.Fprintf(&b, "script (timeout %d ms, wait %d ms, bufio %d):", c.TimeoutMs, c.WaitMs, bs)
 		for _, s := range c.Steps {
 			fmt.Fprintf(&b, " data(%d)", s.Data)
-			for i := 0; i < s.Idle; i++ {
-				fmt.Fprintf(&b, " idle")
+			if s.Idle > 3 {
+				fmt.Fprintf(&b, " idle*%d", s.Idle)
+			} else {
+				for i := 0; i < s.Idle; i++ {
+					fmt.Fprintf(&b, " idle")
+				}
 			}
 			for i := 0; i < s.Faults; i++ {
 				fmt.Fprintf(&b, " %s", s.Kind)
@@ -341,6 +345,12 @@ collect:
 	}
 	o.NonTrivial = inside
 	o.Class("terminal/" + c.Terminal)
+	for _, s := range c.Steps {
+		if s.Idle >= 100 {
+			o.Class("idle-run>=100")
+			break
+		}
+	}
 	if c.StallMs > 0 {
 		o.Class("consumer-stall")
 	}
@@ -394,10 +404,10 @@ func gen1(t *rapid.T) Case {
 			}
 			st.WithData = st.Data > 0 && rapid.IntRange(0, 3).Draw(t, "withData") == 0
 			if !st.WithData && rapid.IntRange(0, 3).Draw(t, "idle") == 0 {
-				st.Idle = rapid.IntRange(1, 3).Draw(t, "nIdle")
+				st.Idle = rapid.SampledFrom([]int{1, 2, 3, 100, 150}).Draw(t, "nIdle")
 			}
 		} else if rapid.IntRange(0, 5).Draw(t, "idleOnly") == 0 {
-			st.Idle = rapid.IntRange(1, 3).Draw(t, "nIdle")
+			st.Idle = rapid.SampledFrom([]int{1, 2, 3, 100, 101, 400}).Draw(t, "nIdle")
 		}
 		if st.Data > 0 || st.Faults > 0 || st.Idle > 0 {
 			c.Steps = append(c.Steps, st)
